@@ -271,6 +271,18 @@ class P8Formatter(BaseFormatter):
             else:
                 raise InvalidP8SectionError(section)
 
+        # PICO-8 omits the trailing default rows of a section. Regions must
+        # have their full size nevertheless (a .p8.png stores them back to
+        # back), so fill in the missing rows from an empty cart.
+        empty_game = Game.make_empty_game(filename=filename)
+        for section in ('gfx', 'gff', 'map', 'sfx', 'music', 'label'):
+            region = getattr(new_game, section)
+            if region is None:
+                continue
+            default_data = getattr(empty_game, section)._data
+            if len(region._data) < len(default_data):
+                region._data.extend(default_data[len(region._data):])
+
         return new_game
 
     @classmethod
